@@ -195,6 +195,9 @@ func (s *Solver) CheckSat() (Result, error) {
 		s.dead = true
 		return Unknown, err
 	}
+	if s.Log != nil {
+		io.WriteString(s.Log, "; -> "+r+"\n")
+	}
 	switch r {
 	case "sat":
 		return Sat, nil
@@ -229,6 +232,9 @@ func (s *Solver) GetValues(names []string) (map[string]uint64, error) {
 	if err != nil {
 		s.dead = true
 		return nil, err
+	}
+	if s.Log != nil {
+		io.WriteString(s.Log, "; -> "+r+"\n")
 	}
 	if strings.HasPrefix(r, "(error") {
 		s.Errors++
